@@ -1026,7 +1026,8 @@ class Constraints:
     def enum(cls, value, lst):
         if isinstance(lst, EnumMeta):
             # return the value instead of the enum type
-            return lst(value).value
+            # (a copy: a mutable member value is not handed out itself)
+            return copy_value(lst(value).value)
 
         if isinstance(value, Enum):
             value = value.value
@@ -1039,13 +1040,13 @@ class Constraints:
     def lax_enum(cls, value, lst):
         if isinstance(lst, EnumMeta):
             # return the value instead of the enum type
-            return lst(value).value
+            return copy_value(lst(value).value)
 
         if isinstance(value, Enum):
             value = value.value
 
         if value not in lst:
-            return list(lst)[0]
+            return copy_value(list(lst)[0])
         return value
 
     @classmethod
